@@ -1,6 +1,6 @@
 HOOK_COMMITS = ["1ae4f10", "19e3492"]
 ENGINES = [
-    {"name": "ipamsim", "path": "/verif/harness/ipamsim", "serves_properties": ["C01", "C02", "C03", "C04", "C10"],
+    {"name": "ipamsim", "path": "/verif/harness/ipamsim", "serves_properties": ["C01", "C02", "C03", "C04", "C05", "C07", "C09", "C10"],
      "kind_free_text": "simulated cluster around the real galaxy-ipam plugin: fake API server trackers, informer model, cooperative "
                        "scheduler owning the interleaving, fault/crash injection, recording cloud provider; rapid stateful generation"},
     {"name": "codec", "path": "/verif/harness/codec", "serves_properties": ["C20"],
@@ -38,3 +38,9 @@ TEXTS.update({
     "C10": _h("DESIGN.md §4 C10", "stateful property-based testing (rapid): provider call log replayed through a per-IP state machine",
               "A recording provider with cleanly failing calls; the log of every generated history is replayed through none|on(node)."),
 })
+TEXTS["C05"] = _h("DESIGN.md §4 C05", "fault-injection property testing (rapid): per-history enumeration of API-call indices x {error, crash-before, crash-after}, memory==store and restart-equivalence oracles",
+                  "Every selected API-call index of every generated history is turned into an error and into a crash point; quick samples indices, thorough enumerates all of them.")
+TEXTS["C07"] = _h("DESIGN.md §4 C07", "stateful property-based testing (rapid) with generated schedules: pool-count cap invariant after every scheduler step",
+                  "Concurrent filters / pool API calls are interleaved at IPAM-call granularity so that 'count' and 'allocate' of two requests can be separated.")
+TEXTS["C09"] = _h("DESIGN.md §4 C09", "stateful property-based testing (rapid) with generated schedules: never-allocated sets and memory==store after reloads that overlap other operations",
+                  "Reloads are run concurrently with allocations/releases/reservation events under the harness-owned scheduler (yield points include the store List inside the reload).")
